@@ -1,219 +1,2 @@
-(* GENERATED by harness/cmd/genconsts from the current /repo source. Do not edit. *)
-From Coq Require Import List ZArith NArith.
-From Coq.Strings Require Import Byte.
-Import ListNotations.
-
-(* testscript/testscript.go, the tokenizer, the expansion and the environment, translated by harness/go2coq
-   (table: harness/cmd/genconsts/gen_tsparse_src.go).
-   Functions: src_envvarname, src_TestScript_Getenv, src_TestScript_Setenv, src_TestScript_setEnv, src_TestScript_expand, src_TestScript_parse, src_TestScript_cmdEnv.  Vocabulary: Lib/GoSem.v, Lib/GoSemExt.v, Lib/GoSemState.v, TsParse/SrcLib.v. *)
-From Coq Require Import Bool.
-From GI Require Import Lib.Bytes Lib.GoSem Lib.GoSemExt Lib.GoSemState TsParse.SrcLib.
-Import GoNotations.
-Local Open Scope go_scope.
-
-(* func envvarname *)
-Definition src_envvarname (v_k : bytes)
-  : res bytes :=
-  if false then
-    t1 <- go_strings_ToLower v_k ;;
-    Ok t1
-  else
-  Ok v_k.
-
-(* func TestScript_Getenv *)
-Definition src_TestScript_Getenv (v_ts : ts_recv) (v_key : bytes)
-  : res bytes :=
-  t1 <- src_envvarname v_key ;;
-  Ok (go_mapref_get [] (r_envMap v_ts) t1).
-
-(* func TestScript_Setenv *)
-Definition src_TestScript_Setenv (v_ts : ts_recv) (v_key : bytes) (v_value : bytes)
-  : res ts_recv :=
-  let v_ts : ts_recv := Build_ts_recv (r_line v_ts) (go_append (r_env v_ts) [((v_key ++ [x3d]) ++ v_value)]) (r_envMap v_ts) in
-  t1 <- src_envvarname v_key ;;
-  t2 <- go_mapref_set (r_envMap v_ts) t1 v_value ;;
-  let v_ts : ts_recv := Build_ts_recv (r_line v_ts) (r_env v_ts) t2 in
-  Ok v_ts.
-
-(* func TestScript_setEnv: range loop 1 *)
-Fixpoint src_TestScript_setEnv_loop1 {L : Type} (l : list bytes) (v_ts : ts_recv) {struct l}
-  : res (outcome ts_recv L ts_recv) :=
-  match l with
-  | [] => Ok (Normal v_ts)
-  | v_kv :: l' =>
-    bindL (
-      let v_i : Z := (go_bytes_Index v_kv [x3d]) in
-      v_ts <- (if (v_i >=? 0%Z)%Z then
-        t1 <- go_slice v_kv (v_i + 1%Z)%Z (len v_kv) ;;
-        t2 <- go_slice v_kv 0%Z v_i ;;
-        t3 <- src_envvarname t2 ;;
-        t4 <- go_mapref_set (r_envMap v_ts) t3 t1 ;;
-        let v_ts : ts_recv := Build_ts_recv (r_line v_ts) (r_env v_ts) t4 in
-        Ok v_ts
-      else
-        Ok v_ts
-      ) ;;
-      Ok (Normal v_ts)
-    ) (fun v_ts =>
-    src_TestScript_setEnv_loop1 l' v_ts)
-  end.
-
-(* func TestScript_setEnv *)
-Definition src_TestScript_setEnv (v_ts : ts_recv) (v_vars : (list bytes))
-  : res ts_recv :=
-  let v_ts : ts_recv := Build_ts_recv (r_line v_ts) v_vars (r_envMap v_ts) in
-  let v_ts : ts_recv := Build_ts_recv (r_line v_ts) (r_env v_ts) go_mapref_make in
-  bindT (src_TestScript_setEnv_loop1 (r_env v_ts) v_ts) (fun v_ts =>
-  Ok v_ts).
-
-(* func TestScript_expand *)
-Definition src_TestScript_expand (v_ts : ts_recv) (v_s : bytes)
-  : res bytes :=
-  t3 <- go_os_Expand v_s (fun (v_key : bytes) =>
-        let v_key1 : bytes := (go_strings_TrimSuffix v_key [x40; x52]) in
-        if (negb ((len v_key1) =? (len v_key))%Z) then
-          t1 <- src_TestScript_Getenv v_ts v_key1 ;;
-          Ok (go_regexp_QuoteMeta t1)
-        else
-        t2 <- src_TestScript_Getenv v_ts v_key ;;
-        Ok t2) ;;
-  Ok t3.
-
-(* func TestScript_parse: for-loop 1 *)
-Fixpoint src_TestScript_parse_loop1 {L : Type} (fuel n : nat) (v_ts : ts_recv) (v_line : bytes) (v_args : (list bytes)) (v_arg : bytes) (v_start : Z) (v_quoted : bool) (v_i : Z) {struct n}
-  : res (outcome ((list bytes) * bytes * Z * bool * Z)%type L (exit (ts_recv * (list bytes))%type)) :=
-  match n with
-  | O => OutOfFuel
-  | S n' =>
-      bindL (
-        t9 <- (if (negb v_quoted) then (t2 <- (if (v_i >=? (len v_line))%Z then Ok true else (t1 <- go_index v_line v_i ;; Ok (beq t1 x20))) ;; t4 <- (if t2 then Ok true else (t3 <- go_index v_line v_i ;; Ok (beq t3 x09))) ;; t6 <- (if t4 then Ok true else (t5 <- go_index v_line v_i ;; Ok (beq t5 x0d))) ;; t8 <- (if t6 then Ok true else (t7 <- go_index v_line v_i ;; Ok (beq t7 x23))) ;; Ok t8) else Ok false) ;;
-        if t9 then
-          '(v_args, v_arg, v_start) <- (if (v_start >=? 0%Z)%Z then
-            t10 <- go_slice v_line v_start v_i ;;
-            t11 <- src_TestScript_expand v_ts t10 ;;
-            let v_arg : bytes := (v_arg ++ t11) in
-            let v_args : (list bytes) := (go_append v_args [v_arg]) in
-            let v_start : Z := (-1)%Z in
-            let v_arg : bytes := [] in
-            Ok (v_args, v_arg, v_start)
-          else
-            Ok (v_args, v_arg, v_start)
-          ) ;;
-          t13 <- (if (v_i >=? (len v_line))%Z then Ok true else (t12 <- go_index v_line v_i ;; Ok (beq t12 x23))) ;;
-          if t13 then
-            Ok (Break (v_args, v_arg, v_start, v_quoted, v_i))
-          else
-          Ok (Continue (v_args, v_arg, v_start, v_quoted, v_i))
-        else
-        if (v_i >=? (len v_line))%Z then
-          Ok (Return Failed)
-        else
-        t14 <- go_index v_line v_i ;;
-        if (beq t14 x27) then
-          if (negb v_quoted) then
-            v_arg <- (if (v_start >=? 0%Z)%Z then
-              t15 <- go_slice v_line v_start v_i ;;
-              t16 <- src_TestScript_expand v_ts t15 ;;
-              let v_arg : bytes := (v_arg ++ t16) in
-              Ok v_arg
-            else
-              Ok v_arg
-            ) ;;
-            let v_start : Z := (v_i + 1%Z)%Z in
-            let v_quoted : bool := true in
-            Ok (Continue (v_args, v_arg, v_start, v_quoted, v_i))
-          else
-          t18 <- (if ((v_i + 1%Z)%Z <? (len v_line))%Z then (t17 <- go_index v_line (v_i + 1%Z)%Z ;; Ok (beq t17 x27)) else Ok false) ;;
-          if t18 then
-            t19 <- go_slice v_line v_start v_i ;;
-            let v_arg : bytes := (v_arg ++ t19) in
-            let v_start : Z := (v_i + 1%Z)%Z in
-            let v_i : Z := (v_i + 1%Z)%Z in
-            Ok (Continue (v_args, v_arg, v_start, v_quoted, v_i))
-          else
-          t20 <- go_slice v_line v_start v_i ;;
-          let v_arg : bytes := (v_arg ++ t20) in
-          let v_start : Z := (v_i + 1%Z)%Z in
-          let v_quoted : bool := false in
-          Ok (Continue (v_args, v_arg, v_start, v_quoted, v_i))
-        else
-        v_start <- (if (v_start <? 0%Z)%Z then
-          let v_start : Z := v_i in
-          Ok v_start
-        else
-          Ok v_start
-        ) ;;
-        Ok (Normal (v_args, v_arg, v_start, v_quoted, v_i))
-      ) (fun '(v_args, v_arg, v_start, v_quoted, v_i) =>
-      let v_i : Z := (v_i + 1%Z)%Z in
-      src_TestScript_parse_loop1 fuel n' v_ts v_line v_args v_arg v_start v_quoted v_i)
-  end.
-
-(* func TestScript_parse *)
-Definition src_TestScript_parse (fuel : nat) (v_ts : ts_recv) (v_line : bytes)
-  : res (exit (ts_recv * (list bytes))%type) :=
-  let v_ts : ts_recv := Build_ts_recv v_line (r_env v_ts) (r_envMap v_ts) in
-  let v_args : (list bytes) := [] in
-  let v_arg : bytes := [] in
-  let v_start : Z := (-1)%Z in
-  let v_quoted : bool := false in
-  let v_i : Z := 0%Z in
-  bindT (src_TestScript_parse_loop1 fuel fuel v_ts v_line v_args v_arg v_start v_quoted v_i) (fun '(v_args, v_arg, v_start, v_quoted, v_i) =>
-  Ok (Done (v_ts, v_args))).
-
-(* func TestScript_cmdEnv: range loop 1 *)
-Fixpoint src_TestScript_cmdEnv_loop1 {L : Type} (v_ts : ts_recv) (l : list bytes) (v_printed : (mapref bool)) {struct l}
-  : res (outcome (mapref bool) L (exit ts_recv)) :=
-  match l with
-  | [] => Ok (Normal v_printed)
-  | v_kv :: l' =>
-    bindL (
-      t1 <- go_slice v_kv 0%Z (go_bytes_Index v_kv [x3d]) ;;
-      t2 <- src_envvarname t1 ;;
-      let v_k : bytes := t2 in
-      v_printed <- (if (negb (go_mapref_get false v_printed v_k)) then
-        t3 <- go_mapref_set v_printed v_k true ;;
-        let v_printed : (mapref bool) := t3 in
-        Ok v_printed
-      else
-        Ok v_printed
-      ) ;;
-      Ok (Normal v_printed)
-    ) (fun v_printed =>
-    src_TestScript_cmdEnv_loop1 v_ts l' v_printed)
-  end.
-
-(* func TestScript_cmdEnv: range loop 2 *)
-Fixpoint src_TestScript_cmdEnv_loop2 {L : Type} (l : list bytes) (v_ts : ts_recv) {struct l}
-  : res (outcome ts_recv L (exit ts_recv)) :=
-  match l with
-  | [] => Ok (Normal v_ts)
-  | v_env :: l' =>
-    bindL (
-      let v_i : Z := (go_bytes_Index v_env [x3d]) in
-      if (v_i <? 0%Z)%Z then
-        t4 <- src_TestScript_Getenv v_ts v_env ;;
-        Ok (Continue v_ts)
-      else
-      t5 <- go_slice v_env 0%Z v_i ;;
-      t6 <- go_slice v_env (v_i + 1%Z)%Z (len v_env) ;;
-      v_ts <- src_TestScript_Setenv v_ts t5 t6 ;;
-      Ok (Normal v_ts)
-    ) (fun v_ts =>
-    src_TestScript_cmdEnv_loop2 l' v_ts)
-  end.
-
-(* func TestScript_cmdEnv *)
-Definition src_TestScript_cmdEnv (v_ts : ts_recv) (v_neg : bool) (v_args : (list bytes))
-  : res (exit ts_recv) :=
-  if v_neg then
-    Ok Failed
-  else
-  if ((len_of v_args) =? 0%Z)%Z then
-    let v_printed : (mapref bool) := go_mapref_make in
-    bindT (src_TestScript_cmdEnv_loop1 v_ts (r_env v_ts) v_printed) (fun v_printed =>
-    Ok (Done v_ts))
-  else
-  bindT (src_TestScript_cmdEnv_loop2 v_args v_ts) (fun v_ts =>
-  Ok (Done v_ts)).
-
+(* NOT GENERATED: harness/cmd/genconsts could not translate the current source:
+   testscript/testscript.go: testscript/testscript.go:1230:13: in TestScript_expand: not in the supported subset (type checker: undefined: strings.Contains) *)
